@@ -65,28 +65,66 @@ TBL_ENS = [
     ('tbl_proportional', 'r matches Ok(x) ==> 3 * total_entries(secvs(x.0@)) <= final(lexer).pos - old(lexer).pos'),
 ]
 
+
+# ---------------------------------------------------------------------------------------------- binder names of the stream reader
+# The ghost text of parse_xref_stream_and_trailer speaks about three binders of the function: the cursor handed to the run
+# reader (`&mut CUR`, 4th argument of parse_xref_section_from_stream), the /W slice (3rd argument) and whether the cursor is
+# declared in front of the /Index loop (then it is loop-carried and the invariant `stm_cursor` ties it to the ghost cursor
+# rem__) or inside it (then nothing is carried and only the assertion `stm_cursor` at the call decides). The names are read from
+# the tree under verification (shape, not text: any spelling of the binders, declaration at any position).
+def _stm_shape():
+    import re
+    d = {'cur': 'data_left', 'w': 'width', 'carried': True, 'secs': 'sections'}
+    try:
+        from vlib import assemble
+        _raw, _sig, body = assemble.locate({'kind': 'fn', 'file': P, 'container': None, 'name': 'parse_xref_stream_and_trailer'})
+        body = assemble.strip_comments(body)
+        m = re.search(r'parse_xref_section_from_stream\s*\(\s*[^,;]+,\s*[^,;]+,\s*([^,;]+?)\s*,\s*&\s*mut\s+(\w+)\s*,', body)
+        if not m:
+            return d
+        d['w'], d['cur'] = m.group(1), m.group(2)
+        head = body.rfind('for ', 0, m.start())
+        decls = [x.start() for x in re.finditer(r'\blet\s+mut\s+%s\b' % re.escape(d['cur']), body[:m.start()])]
+        d['carried'] = bool(decls) and head >= 0 and decls[-1] < head
+        p = re.search(r'\b(\w+)\s*\.\s*push\s*\(', body[m.end():])
+        if p:
+            d['secs'] = p.group(1)
+    except Exception:
+        pass            # anchor lost: reported by the framework when it extracts the item itself
+    return d
+
+_SH = _stm_shape()
+CUR, WEXPR, SECS = _SH['cur'], _SH['w'], _SH['secs']
+
 # ---------------------------------------------------------------------------------------------- ghost text (R1), stream reader
-S_START = '''{
+S_START = r'''{
     let ghost buf = lexer.buf@; let ghost off = lexer.file_offset as int; let ghost p0 = lexer.pos as int; let ghost st = resolve.store();
     let ghost allow = resolve.opts().allow_xref_error;
     proof { lemma_keywords(); }
-    let xref_stream = t!(parse_indirect_stream(lexer, resolve, None)).1;
-    let ghost ps = xref_stream;
+    let \1 = t!(parse_indirect_stream(lexer, resolve, None)).1;
+    let ghost ps = \1;
     proof { lemma_tok(buf, lexer.pos as int); }'''
-S_LOOP = r'''let ghost d0 = data_left@; let ghost idx = index@; let ghost w = width@;
+# the decoded data, whatever it is bound to (`let mut cur = &*t!(s.data(resolve));` or `let data = t!(s.data(resolve));` or `..?`)
+S_DATA = r'''\g<0> let ghost d0 = \1@;'''
+# rem__ is the GHOST cursor: the data behind the first k runs (7.5.8.2: the runs follow each other in /Index order)
+S_LOOP = r'''let ghost idx = \3@; let ghost w = (%(w)s)@; let ghost mut rem__ = d0;
     proof { assert(secvs(Seq::<XRefSection>::empty()) =~= Seq::<SecV>::empty()); assert(Seq::<SecV>::empty() + stm_secs(d0, idx, 0, w) =~= stm_secs(d0, idx, 0, w)); }
     let __chunks = hoist_chunks_exact2(\3);
     for __k in 0..__chunks.len() { let \4 = __chunks[__k]; let (\1, \2) = \5;
-        let ghost k = __k as int; let ghost dk = data_left@; let ghost secs0 = sections@;
-        proof { lemma_eff_count(\2 as int, sec_e(w), dk.len() as int); }'''
-S_PUSH = '''let ghost sec_g = section;
-        sections.push(section);
+        let ghost k = __k as int; let ghost dk = rem__; let ghost secs0 = %(secs)s@;
+        proof { lemma_eff_count(\2 as int, sec_e(w), dk.len() as int); }''' % {'w': WEXPR, 'secs': SECS}
+# what is handed to the run reader for pair k must be the data behind the first k runs
+S_CALL = r'''proof { assert(%(cur)s@ == rem__); } //@L stm_cursor
+        \g<0>
+        proof { rem__ = run_rest(dk, idx, k, w); }''' % {'cur': CUR}
+S_PUSH = r'''let ghost sec_g = \1;
+        %(secs)s.push(\1);
         proof {
             lemma_secvs_push(secs0, sec_g);
             lemma_stm_step(dk, idx, k, w, allow, secvs(secs0), secv(sec_g));
-        }'''
-S_END = '''proof { lemma_stm_done(data_left@, idx, (idx.len() / 2) as int, w, allow, secvs(sections@)); }
-    Ok((sections, trailer))'''
+        }''' % {'secs': SECS}
+S_END = r'''proof { lemma_stm_done(rem__, idx, (idx.len() / 2) as int, w, allow, secvs(%(secs)s@)); }
+    \g<0>''' % {'secs': SECS}
 
 STM_IN = STM + ' matches Some(i)'
 STM_ENS = [
@@ -102,11 +140,14 @@ STM_ENS = [
     ('stm_proportional', 'r matches Ok(x) ==> ' + STM_IN + ' && each_bounded(secvs(x.0@), i.data.len() as int)'),
 ]
 STM_INV = [
-    ('stm_cursor', 'data_left@.len() <= d0.len()'),
-    ('stm_sofar', 'stm_secs(d0, idx, 0, w) == secvs(sections@) + stm_secs(data_left@, idx, __k as int, w)'),
-    ('stm_good_rest', 'stm_all_good(d0, idx, 0, w, allow) ==> stm_all_good(data_left@, idx, __k as int, w, allow)'),
-    ('stm_bad_rest', 'stm_some_bad(d0, idx, 0, w, allow) ==> stm_some_bad(data_left@, idx, __k as int, w, allow)'),
-    ('stm_bounded_sofar', 'each_bounded(secvs(sections@), d0.len() as int)'),
+    # the cursor of the program is the ghost cursor (only if the program carries a cursor across the iterations; a cursor that is
+    # (re)made inside the loop is checked by the assertion with the same label in front of the call)
+    *([('stm_cursor', '%s@ == rem__' % CUR)] if _SH['carried'] else []),
+    'rem__.len() <= d0.len()',
+    ('stm_sofar', 'stm_secs(d0, idx, 0, w) == secvs(%s@) + stm_secs(rem__, idx, __k as int, w)' % SECS),
+    ('stm_good_rest', 'stm_all_good(d0, idx, 0, w, allow) ==> stm_all_good(rem__, idx, __k as int, w, allow)'),
+    ('stm_bad_rest', 'stm_some_bad(d0, idx, 0, w, allow) ==> stm_some_bad(rem__, idx, __k as int, w, allow)'),
+    ('stm_bounded_sofar', 'each_bounded(secvs(%s@), d0.len() as int)' % SECS),
 ]
 
 UNIT = {
@@ -200,16 +241,21 @@ UNIT = {
      'attrs': ['#[verifier::loop_isolation(false)]'],
      'loops': {1: {'invariant': STM_INV}},
      'rewrites': [
-        {'rule': 'R1', 'regex': r'\A\{\s*let xref_stream = t!\(parse_indirect_stream\(lexer, resolve, None\)\)\.1;', 'replace': S_START},
+        # guard: when the cursor is (re)made inside the loop, any OTHER mutable state in front of the loop may be what the cursor
+        # is made from (an offset, a counter): this unit has no invariant for it => anchor lost (UNDECIDED), never a false alarm
+        *([] if _SH['carried'] else [{'rule': 'guard', 'regex': r'\blet\s+mut\s+(?!%s\b)\w+\b(?=.*\bfor\s*\()' % SECS, 'replace': r'\g<0>', 'count': 0}]),
+        {'rule': 'R1', 'regex': r'\A\{\s*let (\w+) = t!\(parse_indirect_stream\(lexer, resolve, None\)\)\.1;', 'replace': S_START},
         {'rule': 'R7', 'find': 't!(lexer.next()) == "trailer"', 'replace': 'hoist_substr_eq(&t!(lexer.next()), "trailer")'},
         R7_DICT,
         R3_OTHER,
-        {'rule': 'R2', 'find': 'let mut sections = Vec::new();', 'replace': 'let mut sections: Vec<XRefSection> = Vec::new();'},
+        {'rule': 'R2', 'regex': r'let mut %s = Vec::new\(\);' % SECS, 'replace': 'let mut %s: Vec<XRefSection> = Vec::new();' % SECS},
+        {'rule': 'R1', 'regex': r'let\s+(?:mut\s+)?(\w+)\s*=\s*(?:&\s*\*\s*)?(?:t!\(\s*\w+\.data\(\s*resolve\s*\)\s*\)|\w+\.data\(\s*resolve\s*\)\s*\?)\s*;', 'replace': S_DATA},
         # R6: iterator loop -> index loop over the collected chunks; the closure body `(c[0], c[1])` and the loop pattern stay
         # verbatim and under proof (index bounds, which element is the first id and which the count)
         {'rule': 'R6', 'regex': r'for \((\w+), (\w+)\) in (\w+)\.chunks_exact\(2\)\.map\(\|(\w+)\| (\([^()]*\))\) \{', 'replace': S_LOOP},
-        {'rule': 'R1', 'find': 'sections.push(section);', 'replace': S_PUSH},
-        {'rule': 'R1', 'find': 'Ok((sections, trailer))', 'replace': S_END},
+        {'rule': 'R1', 'regex': r'let\s+\w+\s*=\s*t!\(\s*parse_xref_section_from_stream\([^;]*\)\s*\)\s*;', 'replace': S_CALL},
+        {'rule': 'R1', 'regex': r'\b%s\.push\((\w+)\);' % SECS, 'replace': S_PUSH},
+        {'rule': 'R1', 'regex': r'Ok\(\(%s, \w+\)\)(?=\s*\}\s*\Z)' % SECS, 'replace': S_END},
      ]},
 
   # ---- dispatcher ----------------------------------------------------------------------------------------------------------
